@@ -343,6 +343,10 @@ def build_table(I):
     @reg("Ord::max", "i64::max", "i32::max", "usize::max", "f64::max")
     def t_max(I, st, a, c):
         x, y = a
+        if isinstance(x, Date):
+            if not is_sym(x.rd) and not is_sym(y.rd):
+                return x if x.rd >= y.rd else y
+            return Date(z3.If(to_z3(x.rd) >= to_z3(y.rd), to_z3(x.rd), to_z3(y.rd)))
         if not is_sym(x) and not is_sym(y):
             return max(x, y)
         x, y = I.coerce(x, y)
@@ -351,6 +355,10 @@ def build_table(I):
     @reg("Ord::min", "i64::min", "i32::min", "usize::min", "f64::min")
     def t_min(I, st, a, c):
         x, y = a
+        if isinstance(x, Date):
+            if not is_sym(x.rd) and not is_sym(y.rd):
+                return x if x.rd <= y.rd else y
+            return Date(z3.If(to_z3(x.rd) <= to_z3(y.rd), to_z3(x.rd), to_z3(y.rd)))
         if not is_sym(x) and not is_sym(y):
             return min(x, y)
         x, y = I.coerce(x, y)
